@@ -73,6 +73,12 @@ __get_d_equiv(dt_dow_t dow, int b)
 			b += b != 0;
 		}
 	}
+	if (b < 0) {
+		/* the modular arithmetic below is for B >= 0 (and happens
+		 * to work down to -384 + DOW), going back is going forth in
+		 * the mirrored week, Mon <-> Fri, Tue <-> Thu */
+		return res - __get_d_equiv((dt_dow_t)(6 - dow), -b);
+	}
 	/* 384 == 4 mod 5 and 384 == 6 mod 7 */
 	u5 = (dow + 384 + b) % 5;
 	b = b / 5 * 7 + b % 5;
